@@ -10,6 +10,7 @@ import (
 	"os"
 	"path/filepath"
 	"regexp"
+	"sort"
 	"strings"
 
 	"golang.org/x/tools/go/ssa"
@@ -19,7 +20,7 @@ import (
 // the documented table (oracle), parsed from /repo/docs/language/LanguageDetails.md on every run
 
 type docRow struct {
-	LHS, Op, RHS, Res string // types: string/number/bool; LHS "" for unary
+	LHS, Op, RHS, Res  string // types: string/number/bool; LHS "" for unary
 	LCoerced, RCoerced bool
 }
 
@@ -373,11 +374,7 @@ func combinePaths(paths []PPath, leaf func(PResult) (PVal, string)) (string, boo
 		}
 		var conds []string
 		for _, d := range p.Decisions {
-			cs := pstring(d.Cond)
-			if !d.Taken {
-				cs = "!" + cs
-			}
-			conds = append(conds, cs)
+			conds = append(conds, canonDecision(d))
 		}
 		var ls string
 		if p.Res.Panic {
@@ -392,7 +389,24 @@ func combinePaths(paths []PPath, leaf func(PResult) (PVal, string)) (string, boo
 		}
 		parts = append(parts, "["+strings.Join(conds, " && ")+"] -> "+ls)
 	}
+	sort.Strings(parts)
 	return strings.Join(parts, " ; "), anyPanic, ""
+}
+
+// canonDecision renders a symbolic branch decision with the negation folded into the comparison operator, so that
+// `if err != nil {A} else {B}` and `if err == nil {B} else {A}` print the same two paths.
+func canonDecision(d PDecision) string {
+	if t, ok := d.Cond.(PTerm); ok && len(t.Args) == 2 && !d.Taken {
+		flip := map[string]string{"==": "!=", "!=": "==", "<": ">=", ">=": "<", ">": "<=", "<=": ">"}
+		if f, ok := flip[t.Op]; ok {
+			return pstring(PTerm{f, t.Args})
+		}
+	}
+	cs := pstring(d.Cond)
+	if !d.Taken {
+		return "!" + cs
+	}
+	return cs
 }
 
 func (c *Ctx) evalBinaryCell(op, l, r string) evalCell {
@@ -405,7 +419,7 @@ func (c *Ctx) evalBinaryCell(op, l, r string) evalCell {
 	}
 	operand := map[string]PVal{"Lhs": PTyped{"L", c.pvType(l)}, "Rhs": PTyped{"R", c.pvType(r)}}
 	mk := func() *PEval {
-		pe := &PEval{Interpret: func(f *ssa.Function) bool { return c.isRepoFn(f) && f.Name() == "getType" }}
+		pe := &PEval{Interpret: func(f *ssa.Function) bool { return c.isRepoFn(f) && f != ex }}
 		pe.Hook = func(pe *PEval, cc *ssa.CallCommon, args []PVal) (PVal, bool) {
 			if cc.StaticCallee() == ex && len(args) == 2 {
 				if p, ok := args[0].(PPtr); ok && len(p.Path) == 1 {
@@ -462,9 +476,9 @@ func expectedEvalTerm(l, op, resT string, coercedNumberRow bool) []string {
 	ctor := map[string]string{"PTSTRING": "engine.ProcessValueString", "PTNUMBER": "engine.ProcessValueNumber", "PTBOOLEAN": "engine.ProcessValueBoolean"}[resT]
 	switch op {
 	case "AND":
-		return []string{fmt.Sprintf("[%s(L)] -> %s{%s(R)} ; [!%s(L)] -> %s{false}", acc, ctor, acc, acc, ctor)}
+		return []string{fmt.Sprintf("[!%s(L)] -> %s{false} ; [%s(L)] -> %s{%s(R)}", acc, ctor, acc, ctor, acc)}
 	case "OR":
-		return []string{fmt.Sprintf("[%s(L)] -> %s{true} ; [!%s(L)] -> %s{%s(R)}", acc, ctor, acc, ctor, acc)}
+		return []string{fmt.Sprintf("[!%s(L)] -> %s{%s(R)} ; [%s(L)] -> %s{true}", acc, ctor, acc, acc, ctor)}
 	}
 	if l == "PTBOOLEAN" && (op == "LESS" || op == "GREATER" || op == "LESSEQ" || op == "GREATEREQ") {
 		acc = "getNumber" // booleans are ordered through the documented bool->number coercion
@@ -601,7 +615,7 @@ func (c *Ctx) evalUnaryCell(op, x string) (string, bool, string) {
 		return "", false, "anchor missing: engine.executeUnaryExpression"
 	}
 	mk := func() *PEval {
-		pe := &PEval{Interpret: func(f *ssa.Function) bool { return c.isRepoFn(f) && f.Name() == "getType" }}
+		pe := &PEval{Interpret: func(f *ssa.Function) bool { return c.isRepoFn(f) && f != ex }}
 		pe.Hook = func(pe *PEval, cc *ssa.CallCommon, args []PVal) (PVal, bool) {
 			if cc.StaticCallee() == ex && len(args) == 2 {
 				return pwith(args[1], "currentValue", PTyped{"X", c.pvType(x)}), true
@@ -645,19 +659,20 @@ func ruleUnaryTable(c *Ctx, rule string) {
 		return
 	}
 	pos := c.pos(fu.Pos())
+	str := func(guard, rest string) string {
+		parts := []string{"[" + guard + `] -> engine.ProcessValueString{""}`, "[" + negGuard(guard) + "] -> engine.ProcessValueString{" + rest + "}"}
+		sort.Strings(parts)
+		return strings.Join(parts, " ; ")
+	}
+	L := "len(getString(X))"
 	want := map[string][]string{
 		"NOT|PTBOOLEAN": {"engine.ProcessValueBoolean{!(getBoolean(X))}"},
 		"HEAD|PTSTRING": {
-			`[(len(getString(X)) <= 0)] -> engine.ProcessValueString{""} ; [!(len(getString(X)) <= 0)] -> engine.ProcessValueString{slice(getString(X), 0, 1)}`,
-			`[(len(getString(X)) < 1)] -> engine.ProcessValueString{""} ; [!(len(getString(X)) < 1)] -> engine.ProcessValueString{slice(getString(X), 0, 1)}`,
-			`[(len(getString(X)) == 0)] -> engine.ProcessValueString{""} ; [!(len(getString(X)) == 0)] -> engine.ProcessValueString{slice(getString(X), 0, 1)}`,
+			str("("+L+" <= 0)", "slice(getString(X), 0, 1)"), str("("+L+" < 1)", "slice(getString(X), 0, 1)"), str("("+L+" == 0)", "slice(getString(X), 0, 1)"),
 		},
 		"TAIL|PTSTRING": {
-			`[(len(getString(X)) <= 1)] -> engine.ProcessValueString{""} ; [!(len(getString(X)) <= 1)] -> engine.ProcessValueString{slice(getString(X), 1, nil)}`,
-			`[(len(getString(X)) <= 0)] -> engine.ProcessValueString{""} ; [!(len(getString(X)) <= 0)] -> engine.ProcessValueString{slice(getString(X), 1, nil)}`,
-			`[(len(getString(X)) < 1)] -> engine.ProcessValueString{""} ; [!(len(getString(X)) < 1)] -> engine.ProcessValueString{slice(getString(X), 1, nil)}`,
-			`[(len(getString(X)) < 2)] -> engine.ProcessValueString{""} ; [!(len(getString(X)) < 2)] -> engine.ProcessValueString{slice(getString(X), 1, nil)}`,
-			`[(len(getString(X)) == 0)] -> engine.ProcessValueString{""} ; [!(len(getString(X)) == 0)] -> engine.ProcessValueString{slice(getString(X), 1, nil)}`,
+			str("("+L+" <= 1)", "slice(getString(X), 1, nil)"), str("("+L+" <= 0)", "slice(getString(X), 1, nil)"), str("("+L+" < 1)", "slice(getString(X), 1, nil)"),
+			str("("+L+" < 2)", "slice(getString(X), 1, nil)"), str("("+L+" == 0)", "slice(getString(X), 1, nil)"),
 		},
 	}
 	for _, k := range sortedKeys(want) {
@@ -691,13 +706,13 @@ func ruleCoercions(c *Ctx, rule string) {
 	}
 	exps := []exp{
 		{"ProcessValueString", "getString", []string{"v.value"}},
-		{"ProcessValueString", "getNumber", []string{"[(#1(call strconv.Atoi(v.value)) != nil)] -> 0 ; [!(#1(call strconv.Atoi(v.value)) != nil)] -> #0(call strconv.Atoi(v.value))"}},
+		{"ProcessValueString", "getNumber", []string{"[(#1(call strconv.Atoi(v.value)) != nil)] -> 0 ; [(#1(call strconv.Atoi(v.value)) == nil)] -> #0(call strconv.Atoi(v.value))"}},
 		{"ProcessValueString", "getBoolean", []string{"(len(v.value) != 0)", "(len(v.value) > 0)", "(v.value != \"\")"}},
 		{"ProcessValueNumber", "getString", []string{"call strconv.Itoa(v.value)"}},
 		{"ProcessValueNumber", "getNumber", []string{"v.value"}},
 		{"ProcessValueNumber", "getBoolean", []string{"(v.value != 0)"}},
-		{"ProcessValueBoolean", "getString", []string{"[v.value] -> \"true\" ; [!v.value] -> \"false\""}},
-		{"ProcessValueBoolean", "getNumber", []string{"[v.value] -> 1 ; [!v.value] -> 0"}},
+		{"ProcessValueBoolean", "getString", []string{"[!v.value] -> \"false\" ; [v.value] -> \"true\"", "call strconv.FormatBool(v.value)"}},
+		{"ProcessValueBoolean", "getNumber", []string{"[!v.value] -> 0 ; [v.value] -> 1"}},
 		{"ProcessValueBoolean", "getBoolean", []string{"v.value"}},
 	}
 	for _, e := range exps {
@@ -737,4 +752,14 @@ func ruleCoercions(c *Ctx, rule string) {
 			ob.Bad("computes " + term + "; the documented coercion is " + strings.Join(e.want, " | "))
 		}
 	}
+}
+
+// negGuard flips the comparison operator of a rendered guard "(a OP b)".
+func negGuard(g string) string {
+	for _, p := range [][2]string{{" <= ", " > "}, {" >= ", " < "}, {" == ", " != "}, {" != ", " == "}, {" < ", " >= "}, {" > ", " <= "}} {
+		if strings.Contains(g, p[0]) {
+			return strings.Replace(g, p[0], p[1], 1)
+		}
+	}
+	return "!" + g
 }
